@@ -15,45 +15,22 @@ def install_stubs() -> None:
     import peptacular.proforma.proforma_parser as PP
     from . import restub
     restub.install(PP, SF)
-    # S9: ProFormaAnnotation.__eq__ compares modification lists through Counter(...) == Counter(...), i.e. through Mod.__hash__;
-    # CrossHair replaces the result of a user-defined __hash__ by a fresh symbol ("proxy return") and then aborts the path
-    # ("proxy intolerance").  The contract of are_mods_equal - equality as multisets of (value, multiplier) - is substituted here;
-    # the real are_mods_equal/__hash__ are the subject of C20.
-    def are_mods_equal(m1, m2):
-        if m1 is None or m2 is None:
-            return m1 is None and m2 is None
-        if len(m1) != len(m2):
-            return False
-        rest = list(m2)
-        for a in m1:
-            hit = -1
-            for i, b in enumerate(rest):
-                if type(a.val) is type(b.val) and a.val == b.val and a.mult == b.mult:
-                    hit = i
-                    break
-            if hit < 0:
-                return False
-            rest.pop(hit)
-        return True
-    PP.are_mods_equal = are_mods_equal
+    # S9': ProFormaAnnotation.__eq__ compares modification lists through Counter(...) == Counter(...), i.e. through Mod.__hash__,
+    # which CrossHair cannot follow ("proxy return" / "proxy intolerance").  All strings of this harness are realised on entry and
+    # every modification value is concrete, so the *real* are_mods_equal / are_intervals_equal run untraced on the real objects
+    # (they used to be substituted by their multiset contract, which made the check blind to a change inside them).
+    from crosshair.tracers import NoTracing
+    import peptacular.proforma.proforma_dataclasses as PD
 
-    def are_intervals_equal(i1, i2):
-        if i1 is None or i2 is None:
-            return i1 is None and i2 is None
-        if len(i1) != len(i2):
-            return False
-        rest = list(i2)
-        for a in i1:
-            hit = -1
-            for k, b in enumerate(rest):
-                if a.start == b.start and a.end == b.end and a.ambiguous == b.ambiguous and are_mods_equal(a.mods, b.mods):
-                    hit = k
-                    break
-            if hit < 0:
-                return False
-            rest.pop(hit)
-        return True
-    PP.are_intervals_equal = are_intervals_equal
+    def _untraced(real):
+        def f(x, y):
+            with NoTracing():
+                return real(x, y)
+        return f
+    for name in ("are_mods_equal", "are_intervals_equal"):
+        w = _untraced(getattr(PD, name))
+        setattr(PP, name, w)
+        setattr(PD, name, w)
 
 
 def _real(x):
@@ -69,28 +46,31 @@ def _fail(**kw) -> bool:
     return False
 
 
-def _ann(seq: str, pos: List[int], tag: str = "m"):
+def _ann(seq: str, pos: List[int], tag: str = "m", same: bool = False):
+    """same=True: every modification has the same value 'm0' (the same modification several times at one position)"""
     im: Dict[int, List[Mod]] = {}
     for k, p in enumerate(pos):
-        im.setdefault(p, []).append(Mod(f"{tag}{k}", 1))
+        im.setdefault(p, []).append(Mod(f"{tag}{0 if same else k}", 1))
     return create_annotation(seq, internal_mods=im) if im else create_annotation(seq)
 
 
-def _modmap(seq: str, pos: List[int], tag: str = "m"):
+def _modmap(seq: str, pos: List[int], tag: str = "m", same: bool = False):
     out = [[] for _ in seq]
     for k, p in enumerate(pos):
-        out[p].append(f"{tag}{k}")
+        out[p].append(f"{tag}{0 if same else k}")
     return [sorted(x) for x in out]
 
 
-def o_find(tseq: str, qseq: str, ntp: int, nqp: int, ignore_mods: bool, tp0: int = 0, tp1: int = 0, qp0: int = 0, excl=()) -> bool:
-    """offsets where the query's residues occur and its modifications equal the target's on that stretch (overlaps included)"""
+def o_find(tseq: str, qseq: str, ntp: int, nqp: int, ignore_mods: bool, tp0: int = 0, tp1: int = 0, qp0: int = 0, same: bool = False,
+           excl=()) -> bool:
+    """offsets where the query's residues occur and its modifications equal the target's on that stretch (overlaps included);
+    same=True: all modifications have one value, so a residue carrying it twice differs from one carrying it once (multisets)"""
     tseq, qseq = _real(tseq), _real(qseq)
     tpos, qpos = [tp0, tp1][:ntp], [qp0][:nqp]
-    t = _ann(tseq, tpos)
-    q = _ann(qseq, qpos)          # same tag: query mod k=0 is 'm0', equal to the target's first modification value
+    t = _ann(tseq, tpos, same=same)
+    q = _ann(qseq, qpos, same=same)          # same tag: query mod k=0 is 'm0', equal to the target's first modification value
     got = SF.find_subsequence_indices(t, q, ignore_mods=ignore_mods)
-    tm, qm = _modmap(tseq, tpos), _modmap(qseq, qpos)
+    tm, qm = _modmap(tseq, tpos, same=same), _modmap(qseq, qpos, same=same)
     want = []
     for k in range(0, len(tseq) - len(qseq) + 1):
         if tseq[k:k + len(qseq)] == qseq and (ignore_mods or tm[k:k + len(qseq)] == qm):
